@@ -10,7 +10,7 @@ ONLY="${1:-}"   # optional: C15 | C16 | C20 - run only the changes breaking that
 OUT="$ROOT/sensitivity_results.txt"
 [ -n "$ONLY" ] && OUT="/dev/null"
 cd /repo || exit 2
-if [ -n "$(git status --porcelain --untracked-files=no)" ]; then echo "/repo has local changes; refusing"; exit 2; fi
+if [ -n "$(git status --porcelain)" ]; then echo "/repo has local changes or untracked files; refusing"; exit 2; fi
 : > "$OUT"
 run_breaking() { # name patch property
     name="$1"; patch="$2"; prop="$3"
@@ -22,7 +22,7 @@ run_breaking() { # name patch property
     replay=$(printf '%s\n' "$line" | sed 's/.*replay=//')
     rcode="-"
     if [ -n "$replay" ] && [ -f "$replay" ]; then (cd "$ROOT" && ./run.sh replay "$replay" >/dev/null 2>&1); rcode=$?; fi
-    git checkout -- . ; find /repo -name '*.snap.new' -delete
+    git checkout -- . ; git clean -fdq src examples; find /repo -name '*.snap.new' -delete
     ucode="-"
     if [ -n "$replay" ] && [ -f "$replay" ]; then (cd "$ROOT" && ./run.sh replay "$replay" >/dev/null 2>&1); ucode=$?; rm -f "$replay"; fi
     if [ "$code" = 1 ] && [ "$rcode" = 1 ] && [ "$ucode" = 0 ]; then verdict=CAUGHT; else verdict=MISSED; fi
@@ -36,7 +36,7 @@ run_neutral() { # name patch
     for prop in C15 C16 C20; do
         (cd "$ROOT" && ./run.sh "$prop" quick >/dev/null 2>&1); res="$res $prop=$?"
     done
-    git checkout -- . ; find /repo -name '*.snap.new' -delete
+    git checkout -- . ; git clean -fdq src examples; find /repo -name '*.snap.new' -delete
     case "$res" in *"=1"*|*"=2"*) verdict=ALARM ;; *) verdict=QUIET ;; esac
     echo "$verdict $name (neutral refactor)$res" | tee -a "$OUT"
 }
